@@ -82,6 +82,7 @@ def m2mpc(infile: str) -> dict:
     input_list = andes.io.read_file_like(infile)
 
     for line in input_list:
+        closing = False
         line = line.strip().rstrip(';')
         if not line:
             continue
@@ -112,8 +113,12 @@ def m2mpc(infile: str) -> dict:
             else:
                 continue
         elif end.search(line):
-            field = None
-            continue
+            # the closing bracket may stand on the same line as the last row
+            line = line.split(']')[0]
+            closing = True
+            if not has_digit.search(line):
+                field = None
+                continue
 
         # parse mpc sections
         if field:
@@ -142,6 +147,9 @@ def m2mpc(infile: str) -> dict:
                         logger.error('Error parsing "%s"', infile)
                         raise e
                     mpc[field].append(data)
+
+            if closing:
+                field = None
 
     # convert mpc to np array
     mpc_array = dict()
